@@ -17,6 +17,7 @@ from .program import norm, target_names
 
 COPY_METHODS = {"copy", "items", "keys", "values", "split", "rsplit", "replace", "format", "strip", "join",
                 "lower", "upper", "as_posix", "union", "difference", "intersection"}
+SHALLOW_COPY_FUNCS = {"list", "tuple", "sorted", "set", "frozenset", "reversed"}
 COPY_FUNCS = {"dict", "list", "set", "tuple", "sorted", "OrderedDict", "frozenset", "str", "int", "float", "bool",
               "len", "repr", "reversed", "enumerate", "zip", "filter", "map", "deepcopy", "copy"}
 
@@ -223,7 +224,7 @@ class FunctionFlow:
                     out |= self.aliases(d.value, d.node, seen)
                 elif d.kind in ("unpack", "for") and d.value is not None:
                     for a in self.aliases(_strip_views(d.value), d.node, seen):
-                        out.add(Atom("elem", repr(a), a.node) if a.kind != "fresh" else a)
+                        out |= self._elem_of(a, d.node, seen)
                 elif d.kind == "with" and d.value is not None:
                     out |= self.aliases(d.value, d.node, seen)
                 else:
@@ -235,7 +236,10 @@ class FunctionFlow:
         if isinstance(e, ast.Subscript):
             if isinstance(e.slice, ast.Slice):
                 return {Atom("fresh", "slice")}
-            return {Atom("elem", repr(a), a.node) if a.kind != "fresh" else a for a in self.aliases(e.value, at, seen)}
+            out = set()
+            for a in self.aliases(e.value, at, seen):
+                out |= self._elem_of(a, at, seen)
+            return out
         if isinstance(e, ast.IfExp):
             return self.aliases(e.body, at, seen) | self.aliases(e.orelse, at, seen)
         if isinstance(e, ast.BoolOp):
@@ -250,6 +254,8 @@ class FunctionFlow:
             if isinstance(f, ast.Attribute) and f.attr in COPY_METHODS:
                 return {Atom("fresh", "copy")}
             if isinstance(f, ast.Name) and f.id in COPY_FUNCS:
+                if f.id in SHALLOW_COPY_FUNCS and len(e.args) == 1 and not e.keywords:
+                    return {Atom("fresh", f"{f.id}@{e.lineno}:{e.col_offset}", e)}  # new container, shared elements
                 return {Atom("fresh", f.id)}
             if isinstance(f, ast.Attribute) and f.attr in ("get", "pop", "setdefault") and e.args:
                 # element of a container
@@ -258,8 +264,10 @@ class FunctionFlow:
                     outs |= self.aliases(e.args[1], at, seen)
                 return outs
             return {Atom("call", norm(f), e)}
-        if isinstance(e, (ast.Dict, ast.List, ast.Set, ast.Tuple, ast.ListComp, ast.DictComp, ast.SetComp,
-                          ast.GeneratorExp, ast.JoinedStr, ast.BinOp, ast.Compare, ast.UnaryOp, ast.Constant,
+        if isinstance(e, (ast.List, ast.Set, ast.Tuple, ast.ListComp, ast.SetComp, ast.GeneratorExp)):
+            # a new container; its elements may be shared (see _elem_of)
+            return {Atom("fresh", f"{type(e).__name__}@{e.lineno}:{e.col_offset}", e)}
+        if isinstance(e, (ast.Dict, ast.DictComp, ast.JoinedStr, ast.BinOp, ast.Compare, ast.UnaryOp, ast.Constant,
                           ast.Lambda)):
             return {Atom("fresh", type(e).__name__)}
         if isinstance(e, ast.Starred):
@@ -267,6 +275,28 @@ class FunctionFlow:
         if isinstance(e, ast.Await):
             return self.aliases(e.value, at, seen)
         return {Atom("fresh", type(e).__name__)}
+
+
+    def _elem_of(self, a: Atom, at: Optional[int], seen: Set) -> Set[Atom]:
+        """atoms an element of the container ``a`` may be identical to"""
+        if a.kind != "fresh":
+            return {Atom("elem", repr(a), a.node)}
+        n = a.node
+        if n is None or ("elem", id(n)) in seen:
+            return {a}
+        seen.add(("elem", id(n)))
+        cn = self.cfg.node_of(n)
+        where = cn.id if cn is not None else at
+        out: Set[Atom] = set()
+        if isinstance(n, (ast.List, ast.Tuple, ast.Set)):
+            for x in n.elts:
+                out |= self.aliases(x, where, seen)
+        elif isinstance(n, (ast.ListComp, ast.SetComp, ast.GeneratorExp)):
+            out |= self.aliases(n.elt, where, seen)
+        elif isinstance(n, ast.Call) and n.args:
+            for b in self.aliases(_strip_views(n.args[0]), where, seen):
+                out |= self._elem_of(b, where, seen)
+        return out or {a}
 
 
 # --------------------------------------------------------------------------------------------------
